@@ -262,6 +262,11 @@ def slow_echo(x, delay=0.1, size=0, marker=None):
                     _t.sleep(0.002)
             except BaseException:  # noqa
                 pass
+    if x == 'LINGER':
+        # leaves a non-daemon thread behind: the process does not exit when the work is over
+        import threading as _th
+        _th.Thread(target=_t.sleep, args=(3600,)).start()
+        return [x]
     if x == 'SLOWUNWIND':
         # cooperative, but its clean-up takes a while (well within the default grace period of terminate())
         try:
